@@ -505,4 +505,41 @@ lemma setSamplingCore_none_inv (g : Grid) (hI : Inv g) (hls : g.lockSampling = f
       exact ⟨inv_sampling_recomputed _ rs ns hI.ep hrl hnl (hI.extPos rs he) (hI.gpGood ns hg) he hg rfl, rfl⟩
 
 
+lemma validateGpts_none {k : Nat} {v : Val} (h : validateGpts k v = .ok none) : v = Val.none := by
+  unfold validateGpts at h
+  rcases hv : validate k v with e | o
+  · simp [hv] at h
+  · rcases o with _ | l
+    · exact validate_none hv
+    · simp only [hv] at h; split at h <;> cases h
+
+lemma validateGpts_some {k : Nat} {v : Val} {ns : List Int} (h : validateGpts k v = .ok (some ns)) :
+    ∃ l, validate k v = .ok (some l) ∧ ns = l.map pyInt := by
+  unfold validateGpts at h
+  rcases hv : validate k v with e | o
+  · simp [hv] at h
+  · rcases o with _ | l
+    · simp [hv] at h
+    · simp only [hv] at h
+      split at h
+      · simp only [Except.ok.injEq, Option.some.injEq] at h; exact ⟨l, rfl, h.symm⟩
+      · cases h
+
+lemma validateGpts_len {k : Nat} {v : Val} {ns : List Int} (h : validateGpts k v = .ok (some ns)) : ns.length = k := by
+  obtain ⟨l, hl, rfl⟩ := validateGpts_some h
+  cases v with
+  | none => simp [validate] at hl
+  | scalar x => simp only [validate, Except.ok.injEq, Option.some.injEq] at hl; subst hl; simp
+  | seq xs =>
+    simp only [validate] at hl
+    split at hl
+    · cases hl
+    · simp only [Except.ok.injEq, Option.some.injEq] at hl; subst hl; simp; omega
+
+lemma validateGpts_good {k : Nat} {v : Val} {ns : List Int} {ep : List Bool} (h : validateGpts k v = .ok (some ns))
+    (hv : GoodVal ep v) : ns.length = k ∧ GoodL ns ep := by
+  obtain ⟨l, hl, rfl⟩ := validateGpts_some h
+  obtain ⟨h1, h2⟩ := validate_good hl hv
+  exact ⟨by simpa using h1, h2⟩
+
 end AbtemVerif.Props.C17
